@@ -2441,3 +2441,47 @@ func c13FirstModeWins(c *Ctx, p *Prog, R string) {
 		c.Note("%s makes no claim: assumeExact.Summary no longer has variables named count and modeCount", R)
 	}
 }
+
+// c08NoWordSizedSets (C08/R19): a set of fields is not kept in one machine word: no left shift in benchproc has as its
+// amount a loop index with no bound from the code (the number of flattened fields grows with the .config keys seen;
+// from the 64th on the bit is lost).
+func c08NoWordSizedSets(c *Ctx, p *Prog) {
+	const R = "C08/R19"
+	n, bad := 0, ""
+	for _, fn := range p.Funcs("benchproc") {
+		eachInstr(fn, func(_ *ssa.BasicBlock, in ssa.Instruction) {
+			bo, ok := in.(*ssa.BinOp)
+			if !ok || bo.Op != token.SHL {
+				return
+			}
+			if _, isConst := bo.Y.(*ssa.Const); isConst {
+				return
+			}
+			// one bit per member: 1 << i
+			if k, ok := constInt(bo.X); !ok || k != 1 {
+				return
+			}
+			n++
+			if _, bounded := upperBound(bo.Y, 0); bounded {
+				return
+			}
+			// an index of a loop over a slice or counter
+			if reaches(bo.Y, func(x ssa.Value) bool {
+				ph, ok := x.(*ssa.Phi)
+				if !ok || !isInteger(ph.Type()) {
+					return false
+				}
+				for _, lp := range naturalLoops(fn) {
+					if lp.Header == ph.Block() {
+						return true
+					}
+				}
+				return false
+			}) {
+				bad = fnName(fn) + " at " + p.pos(bo.Pos())
+			}
+		})
+	}
+	c.Check(bad == "", R, "shift amounts in benchproc", "", fmt.Sprintf("%d variable shifts, none by an unbounded loop index", n),
+		"a left shift by a loop index that the code does not bound ("+bad+"): a set of fields kept as bits of one word silently loses every field from the word's width on — with more than 64 flattened fields (a .config group that has grown) differing fields are not reported")
+}
